@@ -558,6 +558,29 @@ CHECKS = {
                 "sources x termination patterns x every dispose time) whose disagreement with a passing analysis is a checker crash.",
         "technique": "K5 ownership contracts by least-fixpoint analysis on the real AST + K2 class refinement (AutoDetachObserver) + contract of Observable.subscribe; native TestScheduler replay",
     },
+    "C14": {
+        "text": "A chain of per-function contracts, each proved in its own unit of this check. (a) Producers (closure contracts, "
+                "C37): from_iterable's loop runs only while its stop flag is clear and the disposable it returns sets that flag; "
+                "range, generate and the concat engine behind repeat / repeat_value emit ONE element per scheduled action and "
+                "re-schedule through a slot of the disposable they returned. (b) Early terminators (K1: take_, take_while_, first_, "
+                "element_at_or_default_): completion right after the deciding element, for every input. (c) AutoDetachObserver (K2): "
+                "the terminal notification disposes the subscription. (d) K5 ownership: that disposal reaches the producer's flag / slot "
+                "through every stage of the library. (e) Observable.subscribe: whenever the current-thread trampoline is idle, "
+                "`_subscribe_core` runs INSIDE a trampoline item - for every argument shape, with and without a scheduler argument - "
+                "and the Trampoline contract (C30): an action scheduled while an item runs is queued and runs after it returned; so a "
+                "producer's first action runs only after the subscription was assigned. (f) Every producer schedules on "
+                "`scheduler or scheduler_ or CurrentThreadScheduler.singleton()` (AST contract). Together (L14): with the default "
+                "scheduler, or the singleton passed explicitly, at most one producer step per level happens after the deciding element.",
+        "note": "L14, the composition of (a)-(f), is argued in DESIGN.md and not machine-checked as one theorem. The chain does NOT cover, "
+                "and the BOUNDED native run (c14run.py: 5 never-ending sources x 10 pass-through stages x 5 terminators x 4 scheduler "
+                "configurations, work budget 3000 steps; never counted as proved) decides: an explicit ImmediateScheduler or a fresh "
+                "CurrentThreadScheduler() instance (hypothesis of (e) fails), and starvation. On the unchanged tree that run fails for "
+                "both explicit-scheduler configurations and for from_iterable through flat_map / combine_latest (starvation): genuine "
+                "defects against the property as stated, recorded in known_findings.json (KNOWN-FINDING lines), not repairable by a "
+                "small safe patch. Quick tier runs default + singleton in full and two representative pipelines of each explicit "
+                "configuration; thorough runs everything. take_until has no K1 contract (bounded run only).",
+        "technique": "chain of function contracts (closure contracts, K1 refinement, K2 class refinement, K5 ownership, contract of Observable.subscribe, Trampoline contract) + AST contract on producers; bounded native work-budget run for the configurations outside the chain",
+    },
     "C03": {
         "text": "The same three contracts as C02, read for dispose(): (2) AutoDetachObserver.dispose() sets the gate (every later "
                 "on_next / on_error / on_completed of that edge returns without calling the subscriber - invariant `stopped`, proved for "
